@@ -373,24 +373,6 @@ theorem scoped_never_prefetched (e : Entry) (h : e.scope.isSome = true) (queueOn
 
 /-! ## shared synthesised denials -/
 
-/-- a request tree: the client's request at the cache, then any chain of
-sub-queries (alias chases, internal look-ups), each a fresh message with
-arbitrary CD / option / scope state under its parent's context. -/
-def descend (root : ReqView) (path : List (Bool × Bool × Bool)) : ReqView :=
-  path.foldl (fun v m => childView v m.1 m.2.1 m.2.2) root
-
-theorem bypass_inherited (root : ReqView) (path : List (Bool × Bool × Bool)) (h : root.bypass = true) :
-    (descend root path).bypass = true := by
-  unfold descend
-  induction path generalizing root with
-  | nil => exact h
-  | cons m t ih =>
-    simp only [List.foldl_cons]
-    apply ih
-    have ht : (childView root m.1 m.2.1 m.2.2).treeBypass = true := h
-    unfold ReqView.bypass
-    rw [ht]; rfl
-
 /-- **A query that carried ECS or CD neither consumes nor creates shared
 synthesised denials, through alias chases and internal sub-queries.** Whether
 or not the policy later stripped the option (`optAfterEdns`, `scopeValid`
